@@ -197,7 +197,11 @@ type pwPair struct {
 
 func genPasswords(r *vm.Rand) pwPair {
 	base := []string{"hunter2", "", "pässwörd", "a\x00b", "correct horse battery staple", string(r.Bytes(8))}[r.Intn(6)]
-	switch r.Intn(7) {
+	switch r.Intn(9) {
+	case 7:
+		return pwPair{"trailing-nul", base, base + "\x00"}
+	case 8:
+		return pwPair{"trailing-nul", base + "\x00", base}
 	case 0:
 		return pwPair{"equal", base, base}
 	case 1:
